@@ -347,15 +347,40 @@ def one_c11(job):
             ops.append(dict(id="k%dg" % k, kind="att", ents=[dict(k=k, s=0, t=0, root="G")]))
             ops.append(dict(id="k%dp" % k, kind="prop", ents=[dict(k=k, slot=0, root="G")]))
     nsteps = max(len(h) for h in hists)
+    # every third case sends the attestations of one step - one per key, approvable and refusable ones side by side - as ONE batch
+    batched = idx % 3 == 1 and not big
     for i in range(nsteps):
+        group = []
         for k, h in enumerate(hists):
             if i >= len(h):
                 continue
             st = h[i]
-            if st["op"] == "att":
+            if st["op"] == "att" and batched:
+                group.append(dict(k=k, s=st["s"], t=st["t"], root=st["root"], by=st.get("by", "name")))
+            elif st["op"] == "att":
                 ops.append(dict(id="k%ds%d" % (k, i), kind="att", by=st.get("by", "name"), ents=[dict(k=k, s=st["s"], t=st["t"], root=st["root"])]))
             elif st["op"] == "prop":
                 ops.append(dict(id="k%ds%d" % (k, i), kind="prop", by=st.get("by", "name"), ents=[dict(k=k, slot=st["slot"], root=st["root"])]))
+        if len(group) == 1:
+            ops.append(dict(id="b%d" % i, kind="att", by=group[0]["by"], ents=group))
+        elif group:
+            ops.append(dict(id="b%d" % i, kind="atts", ents=group))
+    if batched:
+        # a last batch of entries the rules must refuse for ONE reason while the other comparison would pass (source below the record with
+        # a target above it - a surrounding vote; target not above the record with a higher source), one per key, next to approvable ones:
+        # whatever a refused entry leaves behind would be exported
+        group = []
+        for k, h in enumerate(hists):
+            dbs = [st["db"] for st in h if "db" in st]
+            hs, ht = (dbs[-1]["s"], dbs[-1]["t"]) if dbs else (-1, -1)
+            if hs >= 1 and ht >= 0 and len(conc) >= 16:
+                group.append(dict(k=k, s=hs - 1, t=ht + 1, root="X", by="name"))
+            elif hs >= 0 and hs + 1 <= ht:
+                group.append(dict(k=k, s=hs + 1, t=ht, root="X", by="name"))
+            elif hs < 0:
+                group.append(dict(k=k, s=0, t=1, root="X", by="name"))
+        if len(group) >= 2:
+            ops.append(dict(id="bx", kind="atts", ents=group))
     # two more keys whose only records are in the OLDER on-disk format (gob), with values that include zero
     x1, x2 = len(hists), len(hists) + 1
     legacy = [dict(k=x1, s=0, t=1 + idx % 3, slot=idx % 4), dict(k=x2, s=idx % 3, t=3, slot=0)]
@@ -405,8 +430,9 @@ def run_c11(tier, seed):
         pubs = json.loads(subprocess.run([exe, "-pubkeys", "66"], stdout=subprocess.PIPE, text=True).stdout)
         concs = concretisations(3, seed, 0)
         jobs = []
+        concs7 = concretisations(7, seed, 0)    # (the batched cases - one_c11 - end with values one above the histories' domain)
         for i in range(0, len(hists) - 3, 4):
-            cname, conc = concs[(i // 4) % len(concs)]
+            cname, conc = (concs7 if (i // 4) % 3 == 1 else concs)[(i // 4) % len(concs)]
             inv = {int(v): a for a, v in enumerate(conc)}
             jobs.append((i // 4, hists[i:i + 4], conc, inv, pubs, wd))
         # databases with more than a hundred records (62 keys with both kinds of record + 2 legacy keys): what is exported must not depend on the record count
